@@ -241,7 +241,7 @@ def run_op(X, h, r, op, where="op"):
 
 
 _OPS = _ops()
-_ENTRIES = [(nm, v) for nm in NAMES for v in SVALS]
+_ENTRIES = [(nm, v) for nm in NAMES for v in SVALS] + [(b"a", b""), (b"A", b"")]  # a field line may have an empty value
 _OP_GROUPS = [_OPS[i:i + 10] for i in range(0, len(_OPS), 10)]  # nested menus: the engine's cost per choose grows with the menu size
 
 
@@ -374,9 +374,9 @@ def obligations(tier):
     n = 2 if quick else 3
     ns, sn, sv = (2, S_NAMES_Q, S_VALUES_Q) if quick else (3, S_NAMES_T, S_VALUES_T)
     hist_ops = H_OPS[:2] + H_OPS[3:5] + H_OPS[6:7] + H_OPS[8:15] if quick else H_OPS + [("setitem", b"a", b"1"), ("delitem", b"ab", False), ("insert", 7, b"a", b"9"), ("set_all", b"ab", (b"1",))]
-    nstates = sum((len(NAMES) * len(SVALS)) ** i for i in range(n + 1))
+    nstates = sum(len(_ENTRIES) ** i for i in range(n + 1))
     return [
-        Symx("inductive-step", lambda X: h_step(X, n), bounds=f"all {nstates} field tuples of <= {n} entries (names {{a,A,b,B,ab}} x values {{1,2}}) x {len(_OPS)} operation instances "
+        Symx("inductive-step", lambda X: h_step(X, n), bounds=f"all {nstates} field tuples of <= {n} entries (names {{a,A,b,B,ab}} x values {{1,2}}, a and A also with the empty value) x {len(_OPS)} operation instances "
              "(getitem/get_all/contains/delitem/pop x 5 names (+bytes keys), setitem x 2 values, set_all x 6 value lists, add, insert at 0,1,2,-1,7,-7, iter, len, copy, "
              "eq x 6 variants, keys/values/items x multi)", encoded=ENCODED[:-1], must_reach=["done", "full-size-state", "removed", "replaced-existing", "inserted", "eq-decided", "reassigned-folded-duplicates"],
              parallel_depth=3),
